@@ -56,6 +56,11 @@ def run_history(seed, lines=False):
     # message types are numbers, not necessarily whole ones (the runtime itself re-injects stored messages at 19 - k*1e-6);
     # the HTTP layer carries the type as an integer header, so fractional types stay within in-process histories
     TYPES = [10, 15, 20] if http or rng.random() < 0.5 else [10, 15, 19.5, 19.999998, 20]
+    # few keys: a quarter of the histories use one message type and one sender name per producer, so that every pair of
+    # messages of a producer to one destination is ordered by the statement (any overtaking is then observable)
+    few_keys = rng.random() < 0.25
+    if few_keys:
+        TYPES = [rng.choice([10, 20])]
     comps = {}
     for d in dests:
         comps[d] = Rec(d)
@@ -100,7 +105,7 @@ def run_history(seed, lines=False):
     senders = {}
     for p in range(nprod):
         remote = rng.random() < 0.4
-        names = ["s%d_%d" % (p, j) for j in range(rng.randint(1, 2))]
+        names = ["s%d_%d" % (p, j) for j in range(1 if few_keys else rng.randint(1, 2))]
         for n in names:
             # sender computations only need to be known to discovery of the posting side
             (B if remote else A).discovery.register_computation(n, "B" if remote else "A", (B if remote else A).address, publish=False)
@@ -128,6 +133,28 @@ def run_history(seed, lines=False):
         return r
 
     mA._on_computation_registration = reg_cb
+    # injected delay at the discovery lookup every post starts with, for the late destination only: it sits between the
+    # critical sections of the retry path (kept message taken up again -> queued) and of concurrent newer posts
+    orig_lookup = A.discovery.computation_agent
+
+    def lookup(computation):
+        if computation == late_name:
+            per.jitter()
+            if rng_lookup.random() < 0.3:
+                time.sleep(rng_lookup.random() * 0.003)
+        return orig_lookup(computation)
+
+    rng_lookup = _r.Random(seed + 17)
+    A.discovery.computation_agent = lookup
+    # the same at the entry of a retry post (a kept message on its way back into the queue)
+    orig_post = mA.post_msg
+
+    def post_msg(*a, **kw):
+        if kw.get("_is_retry") and rng_lookup.random() < 0.7:
+            time.sleep(rng_lookup.random() * 0.005)
+        return orig_post(*a, **kw)
+
+    mA.post_msg = post_msg
     start_late = rng.random() < 0.5
     register_after = rng.randint(5, 60)
     stop_flag = threading.Event()
@@ -230,7 +257,7 @@ def run_history(seed, lines=False):
             except Exception:
                 pass
     return {"events": clk.events, "errors": errors, "dests": dests + [late_name], "producers": producers,
-            "injected": per.injected, "line_events": per.line_events, "start_late": start_late, "periodic": periodic, "http": http, "foreign_add": foreign_add}
+            "injected": per.injected, "line_events": per.line_events, "start_late": start_late, "periodic": periodic, "http": http, "foreign_add": foreign_add, "few_keys": few_keys}
 
 
 def analyse(h):
@@ -322,7 +349,7 @@ def analyse(h):
     order_sig = common.stable_hash([e[2] for e in ev if e[1] == "handle"][:400] if False else [(e[4]) for e in ev if e[1] == "handle"])
     stats = {"posted": len(post), "handled": sum(len(v) for v in handle.values()), "deferred": deferred, "mixed_backlog_dequeues": mixed,
              "producers": len(h["producers"]), "order_sig": order_sig, "injected": h["injected"], "line_events": h["line_events"],
-             "http": 1 if h.get("http") else 0, "foreign_add": 1 if h.get("foreign_add") else 0}
+             "http": 1 if h.get("http") else 0, "foreign_add": 1 if h.get("foreign_add") else 0, "few_keys": 1 if h.get("few_keys") else 0}
     return P, stats
 
 
@@ -340,6 +367,7 @@ def worker(job):
                        "first_events": [list(e) for e in h["events"][:25]]} if nontrivial and i % 8 == 0 else None)
         R.count("histories_over_http", stats.get("http", 0))
         R.count("histories_with_late_computation_added_from_a_foreign_thread", stats.get("foreign_add", 0))
+        R.count("histories_with_one_type_and_one_sender_per_producer", stats.get("few_keys", 0))
         for k in ("posted", "handled", "deferred", "mixed_backlog_dequeues", "injected", "line_events"):
             R.count("messages_" + k if k in ("posted", "handled", "deferred") else k, stats.get(k, 0))
         seen = set()
